@@ -34,19 +34,44 @@ pub struct ExRouteDistinguisherN(RouteDistinguisher);
 pub trait ExRead {
     type ExternalTraitSpecificationFor: io::Read;
     spec fn left(&self) -> nat;
+    /// bytes the stream held when it was created (reads do not change it)
+    spec fn total(&self) -> nat;
 }
 /// `c.read_u8()?` (byteorder): one byte, or an error at the end of the stream
 #[verifier::external_body]
 pub fn vx_rd_u8<T: io::Read>(c: &mut T) -> (r: Result<u8, io::Error>)
     ensures
+        (*final(c)).total() == (*old(c)).total(),
         r is Ok ==> (*old(c)).left() >= 1 && (*final(c)).left() == (*old(c)).left() - 1,
         r is Err ==> (*final(c)).left() <= (*old(c)).left(),
 { use byteorder::ReadBytesExt; c.read_u8() }
+/// `c.read_u16 / read_u32 / read_u64::<BigEndian>()?`
+#[verifier::external_body]
+pub fn vx_rd_u16<T: io::Read>(c: &mut T) -> (r: Result<u16, io::Error>)
+    ensures
+        (*final(c)).total() == (*old(c)).total(),
+        r is Ok ==> (*old(c)).left() >= 2 && (*final(c)).left() == (*old(c)).left() - 2,
+        r is Err ==> (*final(c)).left() <= (*old(c)).left(),
+{ use byteorder::{BigEndian, ReadBytesExt}; c.read_u16::<BigEndian>() }
+#[verifier::external_body]
+pub fn vx_rd_u32<T: io::Read>(c: &mut T) -> (r: Result<u32, io::Error>)
+    ensures
+        (*final(c)).total() == (*old(c)).total(),
+        r is Ok ==> (*old(c)).left() >= 4 && (*final(c)).left() == (*old(c)).left() - 4,
+        r is Err ==> (*final(c)).left() <= (*old(c)).left(),
+{ use byteorder::{BigEndian, ReadBytesExt}; c.read_u32::<BigEndian>() }
+#[verifier::external_body]
+pub fn vx_rd_u64<T: io::Read>(c: &mut T) -> (r: Result<u64, io::Error>)
+    ensures
+        (*final(c)).total() == (*old(c)).total(),
+        r is Ok ==> (*old(c)).left() >= 8 && (*final(c)).left() == (*old(c)).left() - 8,
+        r is Err ==> (*final(c)).left() <= (*old(c)).left(),
+{ use byteorder::{BigEndian, ReadBytesExt}; c.read_u64::<BigEndian>() }
 /// `c.read_exact(&mut buf)?`: fills the whole buffer or fails
 #[verifier::external_body]
 pub fn vx_rd_exact<T: io::Read>(c: &mut T, buf: &mut [u8]) -> (r: Result<(), io::Error>)
     ensures
-        final(buf)@.len() == old(buf)@.len(),
+        final(buf)@.len() == old(buf)@.len(), (*final(c)).total() == (*old(c)).total(),
         r is Ok ==> (*old(c)).left() >= old(buf)@.len() && (*final(c)).left() == (*old(c)).left() - old(buf)@.len(),
         r is Err ==> (*final(c)).left() <= (*old(c)).left(),
 { c.read_exact(buf) }
@@ -54,7 +79,7 @@ pub fn vx_rd_exact<T: io::Read>(c: &mut T, buf: &mut [u8]) -> (r: Result<(), io:
 #[verifier::external_body]
 pub fn vx_rd_prefix<T: io::Read>(c: &mut T, addr: &mut [u8], n: usize) -> (r: Result<(), io::Error>)
     ensures
-        final(addr)@.len() == old(addr)@.len(),
+        final(addr)@.len() == old(addr)@.len(), (*final(c)).total() == (*old(c)).total(),
         (*final(c)).left() <= (*old(c)).left(),
 {
     use byteorder::ReadBytesExt;
@@ -97,5 +122,35 @@ pub assume_specification[ crate::bgp::Family::afi ](f: &crate::bgp::Family) -> (
 ;
 pub assume_specification[ Ipv4Addr::new ](a: u8, b: u8, c: u8, d: u8) -> (r: Ipv4Addr)
 ;
+
+
+// ---- io::Cursor over a vector as such a stream -------------------------------------------------------------------------
+#[verifier::external_type_specification]
+#[verifier::external_body]
+#[verifier::reject_recursive_types(T)]
+pub struct ExCursorN<T>(io::Cursor<T>);
+/// `io::Cursor::new(&buf)`: everything is still to be read
+#[verifier::external_body]
+pub fn vx_cursor_new<'a>(buf: &'a Vec<u8>) -> (r: io::Cursor<&'a Vec<u8>>)
+    ensures r.left() == buf@.len(), r.total() == buf@.len(),
+{ io::Cursor::new(buf) }
+/// `c.position()`: the bytes read so far
+#[verifier::external_body]
+pub fn vx_cursor_position(c: &io::Cursor<&Vec<u8>>) -> (r: u64)
+    ensures r as nat + c.left() == c.total(), c.left() <= c.total(),
+{ c.position() }
+/// `RouteDistinguisher::decode(&rd_buf).map_err(|_| malformed())?`
+#[verifier::external_body]
+pub fn vx_rd_decode(b: &[u8; 8]) -> (r: Result<RouteDistinguisher, io::Error>)
+{ RouteDistinguisher::decode(b) }
+/// `vec![0u8; n]`
+#[verifier::external_body]
+pub fn vx_zeroed(n: usize) -> (r: Vec<u8>)
+    ensures r@.len() == n,
+{ vec![0u8; n] }
+/// an io::Error (InvalidData) with a formatted text
+#[verifier::external_body]
+pub fn vx_invalid_data() -> (r: io::Error)
+{ io::Error::new(io::ErrorKind::InvalidData, "unknown flowspec component type") }
 
 } // verus!
